@@ -47,7 +47,7 @@ class Outcome:
         self.machinery_errors: list[str] = []
         self.model_mismatches: list[dict] = []
         self.judged = 0
-        self.kfs = [k for k in load_known_findings() if prop in k["properties"]]
+        self.kfs = load_known_findings()  # a finding may surface in any check whose programs reach its trigger
 
     # -- known findings
     def open_kf(self, key: str):
